@@ -83,6 +83,7 @@ use std::cell::Cell;
 use std::cmp::{max, min};
 use std::collections::{BTreeSet, HashMap};
 use std::rc::Rc;
+use std::sync::Arc;
 
 use std::io;
 use std::io::Write;
@@ -406,7 +407,9 @@ impl RenderTableCell {
 /// Render tree table row
 struct RenderTableRow {
     cells: Vec<RenderTableCell>,
-    col_sizes: Option<Vec<usize>>,
+    // Shared between all rows of a table: one copy each would take
+    // rows x columns words of memory.
+    col_sizes: Option<Arc<[usize]>>,
     style: ComputedStyle,
 }
 
@@ -532,10 +535,11 @@ impl RenderTable {
     /// Consume this and return a `Vec<RenderNode>` containing the children;
     /// the children know the column sizes required.
     fn into_rows(self, col_sizes: Vec<usize>, vert: bool) -> Vec<RenderNode> {
+        let col_sizes: Arc<[usize]> = col_sizes.into();
         self.rows
             .into_iter()
             .map(|mut tr| {
-                tr.col_sizes = Some(col_sizes.clone());
+                tr.col_sizes = Some(Arc::clone(&col_sizes));
                 let style = tr.style.clone();
                 RenderNode::new_styled(RenderNodeInfo::TableRow(tr, vert), style)
             })
